@@ -301,7 +301,7 @@ func runC10(r *Run) {
 		ff := r.E.Facts(pe, core.Ctx{})
 		ok := false
 		for _, ri := range ff.Returns() {
-			if c, isC := ri.Ret.Results[0].(*ssa.Const); isC && c.Value.String() == "true" {
+			if c, isC := core.RetOp(ri.Ret, 0).(*ssa.Const); isC && c.Value.String() == "true" {
 				ok = core.HasFact(ri.Facts, "cmp($0.Protocol.Patches[_] == $1)")
 			}
 		}
